@@ -676,7 +676,6 @@ def others_observe(rep, rng, name, Q7, reach, tab, mtop, V, tier_):
                 n += 2
                 vf_, vc = mpf_value(fresh), mpf_value(cached)
                 refv = Fraction(V, 1 << mtop)
-                e = max(vf_, vc).numerator.bit_length() - max(vf_, vc).denominator.bit_length()
                 ulp = Fraction(2) ** (math.floor(math.log2(float(refv))) + 1 - p) if refv > 0 else Fraction(1)
                 for what, val in (("fresh", vf_), ("cached", vc)):
                     d = abs(val - refv) / ulp
